@@ -61,6 +61,7 @@ type PubOpts struct {
 	Discovery   bool             // serve /.well-known/libp2p/protocols
 	Hosts       []string         // host:port of live servers
 	DeadHosts   []string         // advertised first, nothing listens
+	DeadLast    []string         // advertised last, nothing listens
 	TLS         bool
 	HandlerPath string
 	Topic       string
@@ -111,6 +112,9 @@ func (w *World) NewPublisher(o PubOpts) *PubNode {
 		urls = append(urls, scheme+h)
 	}
 	for _, h := range o.Hosts {
+		urls = append(urls, scheme+h)
+	}
+	for _, h := range o.DeadLast {
 		urls = append(urls, scheme+h)
 	}
 	popts := []ipnisync.Option{ipnisync.WithStartServer(false), ipnisync.WithHTTPListenAddrs(urls...)}
